@@ -97,7 +97,7 @@ def units_for(root, prop):
     return out
 
 
-HARNESS_RE = re.compile(r"//@\s*(id=[^\n]*)\n((?:\s*#\[[^\n]*\]\s*\n)*)\s*(?:pub\s+)?fn\s+([A-Za-z0-9_]+)")
+HARNESS_RE = re.compile(r"//@\s*(id=[^\n]*)\n((?:\s*#\[[^\n]*\]\s*\n)*)\s*(?:(?:pub\s+)?fn\s+|[a-z_]+!\()([A-Za-z0-9_]+)")
 
 
 def kani_harnesses(root):
@@ -362,8 +362,9 @@ def parse_kani_output(out):
             r["time_s"] = float(m.group(1))
         for fm in re.finditer(r"Failed Checks: (.*)\n\s*File: \"([^\"]*)\", line (\d+), in (\S+)", txt):
             r["failed_checks"].append(dict(desc=fm.group(1).strip(), file=fm.group(2), line=int(fm.group(3)), func=fm.group(4)))
-        if "CBMC failed" in txt or "unwinding assertion" in txt and r["status"] == "FAILED" and not r["failed_checks"]:
-            pass
+        if "CBMC timed out" in txt or "CBMC failed" in txt and not r["failed_checks"]:
+            r["status"] = "UNKNOWN"
+            r["note"] = "CBMC timed out" if "timed out" in txt else "CBMC failed without a failed check (out of memory / crash)"
         res[h] = r
     return res
 
@@ -378,11 +379,14 @@ def run_kani(root, scratch, harnesses, tier):
         out["undecided"].append(str(e))
         return out
     out["overlay"] = ["%s: %s::%s += %s" % (f, i, fn, "; ".join(a)) for f, i, fn, a in inserted]
-    cmd = ["cargo", "kani", "-Z", "function-contracts", "-Z", "stubbing", "-j", str(min(NCPU, 12)), "--output-format=terse"]
+    hto = int(os.environ.get("VERIF_HARNESS_TIMEOUT", "150" if tier == "quick" else "900"))
+    cmd = ["cargo", "kani", "-Z", "function-contracts", "-Z", "stubbing", "-Z", "unstable-options", "--harness-timeout", "%ds" % hto,
+           "-j", str(min(NCPU, 12)), "--output-format=terse"]
     for h in harnesses:
         cmd += ["--harness", h["full"]]
-    out["cmd"] = "CARGO_NET_OFFLINE=true cargo kani -Z function-contracts -Z stubbing -j %d --output-format=terse %s" % (
-        min(NCPU, 12), " ".join("--harness " + h["full"] for h in harnesses))
+    cmd += ["--exact"]
+    out["cmd"] = "CARGO_NET_OFFLINE=true cargo kani -Z function-contracts -Z stubbing -Z unstable-options --harness-timeout %ds -j %d --output-format=terse %s" % (
+        hto, min(NCPU, 12), " ".join("--harness " + h["full"] for h in harnesses) + " --exact")
     to = 900 if tier == "quick" else 3000
     rc, so, se, dt = run(cmd, cwd=repo, env={"CARGO_TARGET_DIR": os.path.join(scratch.dir, "target-kani")}, timeout=to)
     out["time_s"] = round(dt, 2)
@@ -459,6 +463,8 @@ def known_match(known, prop, oid):
 # ------------------------------------------------------------------ main
 
 def check_prefix_prop(desc, props, prop):
+    if prop.startswith("KANI:"):
+        return True
     m = re.match(r"^\"?(C\d\d|A\d+):", desc.strip())
     if m and m.group(1).startswith("C"):
         return m.group(1) == prop
@@ -473,7 +479,7 @@ def main(root, argv):
     tier = argv[1] if len(argv) > 1 else os.environ.get("VERIF_TIER", "quick")
     seed = int(os.environ.get("VERIF_SEED", "0") or 0)
     t0 = time.time()
-    ev_path = os.path.join(root, "evidence", "%s.json" % prop)
+    ev_path = os.path.join(root, "evidence", "%s.json" % prop) if re.match(r"^C\d+$", prop) else os.path.join("/var/tmp", "verif-dev-evidence.json")
     os.makedirs(os.path.join(root, "evidence"), exist_ok=True)
     os.makedirs(os.path.join(root, "replay"), exist_ok=True)
     scratch = Scratch()
@@ -490,8 +496,19 @@ def main(root, argv):
 
 
 def decide(root, prop, tier, seed, scratch, t0, ev_path):
-    units = units_for(root, prop)
-    hs = [h for h in kani_harnesses(root) if prop in h["props"] and (tier == "thorough" or h["tier"] == "quick")]
+    dev = None
+    if prop.startswith("KANI:"):
+        dev = prop
+        units = []
+        hs = [dict(h, props=h["props"] + [prop]) for h in kani_harnesses(root)
+              if re.search(prop[5:], h["fn"]) and (tier == "thorough" or h["tier"] == "quick")]
+    elif prop.startswith("UNIT:"):
+        dev = prop
+        units = [prop[5:]]
+        hs = []
+    else:
+        units = units_for(root, prop)
+        hs = [h for h in kani_harnesses(root) if prop in h["props"] and (tier == "thorough" or h["tier"] == "quick")]
     if not units and not hs:
         raise Undecided("no unit or harness is registered for %s" % prop)
     log("[%s/%s] verus units: %s; kani harnesses: %d" % (prop, tier, units, len(hs)))
@@ -527,7 +544,7 @@ def decide(root, prop, tier, seed, scratch, t0, ev_path):
         for fi in ur["fns"]:
             sid = gen.short_id(fi["path"])
             c = contracts.get(sid)
-            if c is None or prop not in fi["props"]:
+            if c is None or (prop not in fi["props"] and not dev):
                 continue
             n = 1 + len(c.requires) + len(c.ensures) + sum(len(l["invariant"]) + len(l["ensures"]) + (1 if l["decreases"] else 0) for l in c.loops.values())
             entry = dict(function=fi["path"], unit=ur["unit"], src_sha256_16=fi["sha"], backend="verus",
@@ -563,7 +580,7 @@ def decide(root, prop, tier, seed, scratch, t0, ev_path):
             rec = dict(oid=oid, backend="verus", unit=ur["unit"], detail=f, props=props)
             if fnid == "?":
                 undecided.append("[unit %s] failed obligation could not be attributed to a function: %s" % (ur["unit"], f["message"]))
-            elif prop in props:
+            elif prop in props or dev:
                 violations.append(rec)
             else:
                 other.append(rec)
